@@ -98,7 +98,22 @@ var box = [][]Pt{{{-30, 0, true}, {600, 0, true}, {600, 520, true}, {-30, 520, t
 
 // GlyfShape returns the k-th TrueType glyph of the shape menu for glyph id gid.
 func GlyfShape(k int, gid int) *glyf.Glyph {
-	switch k % 5 {
+	switch k % 7 {
+	case 5, 6:
+		// composite with an instruction block: empty but present (legal, and what the decoder
+		// returns for WE_HAVE_INSTRUCTIONS with length 0), or two bytes
+		if gid >= 2 {
+			g := CompositeGlyf(funit.Rect16{LLx: 0, LLy: 0, URx: 500, URy: 700}, 1)
+			d := g.Data.(glyf.CompositeGlyph)
+			d.Components[0].Flags |= glyf.FlagWeHaveInstructions
+			d.Instructions = []byte{}
+			if k%7 == 6 {
+				d.Instructions = []byte{0xB0, 0x05}
+			}
+			g.Data = d
+			return g
+		}
+		return SimpleGlyf(triangle, nil)
 	case 0:
 		return nil // empty glyph
 	case 1:
@@ -107,12 +122,13 @@ func GlyfShape(k int, gid int) *glyf.Glyph {
 		return SimpleGlyf(twoContours, []byte{0xB0, 0x01})
 	case 3:
 		return SimpleGlyf(box, nil)
-	default:
+	case 4:
 		if gid >= 2 {
 			return CompositeGlyf(funit.Rect16{LLx: 0, LLy: 0, URx: 510, URy: 703}, 1, glyph.ID(gid-1))
 		}
 		return SimpleGlyf(box, nil)
 	}
+	return SimpleGlyf(box, nil)
 }
 
 // CFFShape returns the k-th CFF glyph of the shape menu.
@@ -420,7 +436,7 @@ func Font(c *explore.Ctx, o FontOpts) (*sfnt.Font, *FontSpec) {
 func simpleInfo(feature string, typ uint16, st gtab.Subtable) *gtab.Info {
 	return &gtab.Info{
 		ScriptList: map[language.Tag]*gtab.Features{
-			language.MustParse("und-Zzzz"): {Required: 0xFFFF, Optional: []gtab.FeatureIndex{0}},
+			language.MustParse("und-Zzzz-x-dflt"): {Required: 0xFFFF, Optional: []gtab.FeatureIndex{0}},
 		},
 		FeatureList: []*gtab.Feature{{Tag: feature, Lookups: []gtab.LookupIndex{0}}},
 		LookupList: []*gtab.LookupTable{
